@@ -20,7 +20,20 @@ def esc : Str → Str
   | [] => []
   | c :: cs => if metas.contains c then '\\' :: c :: esc cs else c :: esc cs
 
+/-- "the engine agrees with the reference matcher on the source `src`": whenever the reference
+    accepts `src`, the engine compiles it, reports the same group names and returns the same
+    captures for every input. For `onig` this is a *hypothesis* of the C32 theorems (sampled by the
+    correspondence run on the generated subset); for the reference engine it holds by definition. -/
+def AgreesOn (E : Engine) (src : Str) : Prop :=
+  ∀ re, Rx.refCompile src = .ok re →
+    ∃ rx, E.compile src = .ok rx ∧ E.names rx = Rx.groupNames re ∧
+      ∀ input, E.captures rx input = Rx.refCaptures re input
+
 /-! ### (a) literal-only rules -/
+
+/-- the regular-expression source of the literal-only rule `esc s`: `(?m)\A` `esc s` `\z`. -/
+def litSource (s : Str) : Str := cs!"(?m)\\A" ++ esc s ++ cs!"\\z"
+
 
 /-- clause "a literal-only rule matches exactly its own text": `matched` is what was observed for
     the rule `esc s` on the input `t`. -/
